@@ -10,8 +10,8 @@ PROP = {'gen_tables': ['Pools'],
          'zap.Stack fields; fixed clock). History operations: encoder ops with heavy fault injection (kept cores re-logged later), '
          'marshalers that panic with namespaces open and a reflection buffer in use (JSON and console), entries of 1.5 KB–300 KB, '
          'logger-level actions as above on other loggers, single and double runtime.GC(). seq mode (about 90 %): goroutine pinned with '
-         'LockOSThread + GOMAXPROCS(1), two GCs (all pools empty) → observe B0, history, observe B1, observe B2; every 14th case (40th '
-         'thorough) and the targeted ones also run the observed call as the FIRST call of a fresh harness process. conc mode: 2–4 goroutines '
+         'LockOSThread + GOMAXPROCS(1), two GCs (all pools empty) → observe B0, history, observe B1, observe B2; every 3rd case (4th '
+         'thorough) and half of the targeted ones also run the observed call as the FIRST call of a fresh harness process. conc mode: 2–4 goroutines '
          'replay the history on their own loggers while the observed call is made 10–80 times; built with -race. 108 targeted histories '
          'come first: 12 operations that each leave one kind of pooled object behind as the last object put (console / JSON entry whose '
          'field panics with namespaces open and a reflection buffer in use; reflected values; 70 KB entries; a written entry with a hook, '
